@@ -10,6 +10,7 @@
 // exactly once.  Build with -DVERIF_ENGINE_FUZZ for a libFuzzer binary, otherwise a rapidcheck binary.
 #pragma once
 #include <cstdint>
+#include <atomic>
 #include <cstdio>
 #include <cstdlib>
 #include <cstring>
@@ -25,7 +26,6 @@
 #include <exception>
 #include <unistd.h>
 #include <thread>
-#include <atomic>
 #include <chrono>
 #include <fcntl.h>
 #include <sys/stat.h>
@@ -34,16 +34,30 @@
 #include <rapidcheck.h>
 #endif
 
+#include <sys/syscall.h>
 #if defined(__has_feature)
-#  if __has_feature(address_sanitizer) || __has_feature(thread_sanitizer)
-#    define VERIF_HAVE_SANITIZER 1
+#  if __has_feature(address_sanitizer)
+#    define VERIF_HAVE_ASAN 1
+#  endif
+#  if __has_feature(thread_sanitizer)
+#    define VERIF_HAVE_TSAN 1
 #  endif
 #endif
-#if defined(__SANITIZE_ADDRESS__) || defined(__SANITIZE_THREAD__)
-#  define VERIF_HAVE_SANITIZER 1
+#if defined(__SANITIZE_ADDRESS__)
+#  define VERIF_HAVE_ASAN 1
 #endif
-#ifdef VERIF_HAVE_SANITIZER
+#if defined(__SANITIZE_THREAD__)
+#  define VERIF_HAVE_TSAN 1
+#endif
+#ifdef VERIF_HAVE_ASAN
 extern "C" void __sanitizer_set_death_callback(void (*)(void));
+#endif
+#ifdef VERIF_HAVE_TSAN
+// ThreadSanitizer runs with halt_on_error=0; every report bumps this counter (the hook is called from inside the
+// TSan runtime, so it must not do anything else), and execute_case() turns "a report happened during this case"
+// into an ordinary failure of that case — which also lets rapidcheck shrink it.
+namespace verif { inline std::atomic<unsigned> &tsan_reports() { static std::atomic<unsigned> n{0}; return n; } }
+extern "C" __attribute__((no_sanitize("thread"))) void __tsan_on_report(void *) { verif::tsan_reports().fetch_add(1, std::memory_order_relaxed); }
 #endif
 
 namespace verif {
@@ -228,7 +242,7 @@ inline void on_fatal_signal(int sig) {
   _exit(128 + sig);
 }
 inline void install_crash_capture() {
-#ifdef VERIF_HAVE_SANITIZER
+#ifdef VERIF_HAVE_ASAN
   __sanitizer_set_death_callback(on_death);
 #else
   for (int sg : {SIGSEGV, SIGBUS, SIGFPE, SIGILL}) {
@@ -255,7 +269,7 @@ inline void watchdog_arm(unsigned seconds) {
       for (;;) {
         std::this_thread::sleep_for(std::chrono::milliseconds(100));
         int64_t d = watchdog_deadline().load();
-        if (d != 0 && steady_ms() > d) { dump_current_case("hang"); _exit(3); }
+        if (d != 0 && steady_ms() > d) { dump_current_case("hang"); syscall(SYS_exit_group, 3); }   // raw exit: TSan's _exit interceptor can deadlock
       }
     }).detach();
   }
@@ -271,6 +285,9 @@ inline std::string execute_case(const Scenario &scn) {
   if (r.case_alarm_s) watchdog_arm(r.case_alarm_s);
   CaseInfo info;
   std::string err;
+#ifdef VERIF_HAVE_TSAN
+  unsigned tsan_before = tsan_reports().load();
+#endif
   try {
     err = r.sub->run(scn, info);
   } catch (const std::exception &e) {
@@ -278,6 +295,10 @@ inline std::string execute_case(const Scenario &scn) {
   } catch (...) {
     err = "unknown C++ exception escaped into the harness";
   }
+#ifdef VERIF_HAVE_TSAN
+  if (err.empty() && tsan_reports().load() != tsan_before)
+    err = "ThreadSanitizer reported a data race during this case (report text is in the worker log)";
+#endif
   if (r.case_alarm_s) watchdog_disarm();
   r.in_case = false;
   s.evaluations++;
